@@ -180,3 +180,22 @@ var sevEntryName = map[int]string{
 var stdLevelOf = map[int]int{model.Debug: -4, model.Info: 0, model.Warn: 4, model.Error: 8, model.Trace: -8, model.Fatal: 16, model.Panic: 17}
 
 func jsonMarshal(v any) ([]byte, error) { return json.Marshal(v) }
+
+// worldLevelName is the name this build of logg prints for a built-in level (reported by the
+// world when it starts); registered and unknown values fall back to the model's rendering,
+// which is only used in messages.
+func worldLevelName(run *orch.Run, l int) string {
+	for _, e := range run.Events {
+		if e.K != "start" {
+			continue
+		}
+		var v struct {
+			Names []string `json:"names"`
+		}
+		if json.Unmarshal(e.V, &v) == nil && l >= 0 && l < len(v.Names) && v.Names[l] != "" {
+			return v.Names[l]
+		}
+		break
+	}
+	return model.LevelName(l)
+}
